@@ -33,7 +33,9 @@
 (***************************************************************************)
 EXTENDS StoreTree, Json
 
-CONSTANTS Scens     \* the scenarios: records [name, rounds]; rounds: sequence of [n, lay, f1, m, a, k, f2, fs]
+CONSTANTS Scens,    \* the scenarios: records [name, rounds]; rounds: sequence of [n, lay, f1, m, a, k, f2, fs]
+          Sparse    \* TRUE: the invariants that walk the whole tree and both pools (BTreeOk, Corr, PoolOk) are evaluated
+                    \* after every step that restructured something and after every 8th step, not after every step
 
 VARIABLES sc,       \* the scenario of this behaviour
           pc,       \* index of the next operation
@@ -89,7 +91,12 @@ OpIn(rs, i, j) == IF j <= RoundLen(rs[i]) THEN RoundOp(rs[i], j) ELSE OpIn(rs, i
 OpAt(s, j) == OpIn(s.rounds, 1, j)
 
 ---------------------------------------------------------------------------
+IsPerm(name, n) == {Perm(name, n, i) : i \in 1..n} = 1..n
+RoundOk(r) == /\ IsPerm(r.lay, r.n) /\ IsPerm(r.f1, r.n) /\ IsPerm(r.a, r.n) /\ IsPerm(r.fs, r.n) /\ IsPerm(r.f2, r.m + r.k)
+              /\ r.m <= r.n /\ r.k <= r.n /\ r.n >= 1
+
 GInit == /\ sc \in Scens
+         /\ \A i \in 1..Len(sc.rounds) : Assert(RoundOk(sc.rounds[i]), <<"not a permutation in scenario", sc.name>>)
          /\ pc = 1
          /\ pcs = <<[q |-> RQ(sc), s |-> "F", id |-> 0]>>
          /\ LET t1 == Link(TInit, RQ(sc)) IN
@@ -164,11 +171,21 @@ GenSpec == GInit /\ [][GNext]_gvars
 
 (* the free pieces of the section are what the tree holds *)
 PiecesOk ==
-    /\ \A z \in DOMAIN keys : Cardinality(FreeOf(z)) = keys[z]
-    /\ \A i \in 1..Len(pcs) : pcs[i].s = "F" => pcs[i].q \in DOMAIN keys
+    LET FI == {i \in 1..Len(pcs) : pcs[i].s = "F"} IN
+    /\ {pcs[i].q : i \in FI} = DOMAIN keys
+    /\ \A z \in {y \in DOMAIN keys : keys[y] > 1} : Cardinality(FreeOf(z)) = keys[z]
+    /\ Cardinality(FI) = Cardinality(DOMAIN keys) + Cardinality({<<y, j>> \in UNION {{<<x, i>> : i \in 2..keys[x]} : x \in {y \in DOMAIN keys : keys[y] > 1}} : TRUE})
     /\ \A i \in 1..(Len(pcs) - 1) : ~(pcs[i].s = "F" /\ pcs[i + 1].s = "F")
 
-GenInv == TreeInv /\ PiecesOk
+Structural == {"node:new-page", "node:last-of-page", "node:recycled", "car:new-page", "car:last-of-page", "car:recycled",
+               "ins:split-leaf", "ins:split-interior", "ins:root-grows", "ins:root-grows-again",
+               "del:interior-by-predecessor", "del:interior-by-successor", "del:interior-unsplit", "del:rotate-down",
+               "del:rotate-up", "del:unsplit-leaf", "del:unsplit-interior", "del:root-shrinks", "get:split-entry-reused",
+               "get:split-delete-insert", "gen:ambiguous-piece"}
+Heavy == ~Sparse \/ wit.tags \cap Structural # {} \/ pc % 8 = 0 \/ pc > Total(sc)
+
+GenInv == /\ (Heavy => BTreeOk /\ Corr /\ PoolOk)
+          /\ SearchOk /\ NoBug /\ PiecesOk
 
 (* at the end of a scenario everything is one free piece again *)
 EndOk == pc = Total(sc) + 2 => Len(pcs) = 1 /\ pcs[1].s = "F" /\ pcs[1].q = RQ(sc)
@@ -183,4 +200,35 @@ ScensSmall ==
     {[name |-> "small-" \o ToString(n) \o "-" \o f1 \o "-" \o a,
       rounds |-> <<R(n, "s7", f1, n \div 2, a, n \div 4, "zig", "mid"), R(n - 1, "desc", a, n \div 3, f1, n \div 5, "asc", "s11")>>]
      : n \in {9, 20, 41}, f1 \in {"asc", "desc", "zig", "mid", "s37"}, a \in {"asc", "desc", "s11"}}
+
+(* real constants.  Every n is coprime to 7, 11, 37 and 101 and every m + k is a prime, so that each     *)
+(* order name is a permutation (GInit asserts it).  A monotone order over 530 sizes makes the root of  *)
+(* the tree split a second time (height 3); 300 sizes fill a carrier page (256) and four node pages.   *)
+Names == <<"asc", "desc", "zig", "mid", "s7", "s11", "s37", "s101">>
+Nm(i) == Names[(i % 8) + 1]
+
+ScensBig(v) ==
+    {[name |-> "t530-v" \o ToString(v),
+      rounds |-> <<R(530, IF v % 3 = 1 THEN "desc" ELSE "asc", IF v % 3 = 2 THEN "desc" ELSE "asc", 176, Nm(3 + v), 87, Nm(2 + v), Nm(5 + v))>>]}
+
+ScensMid(v) ==
+    {[name |-> "t300-" \o ToString(j) \o "-v" \o ToString(v),
+      rounds |-> <<R(300, Nm(v + j), Nm(v + 3 * j + 1), 150, Nm(v + 5 * j + 2), 61, Nm(v + j + 3), Nm(v + 7 * j + 4))>>] : j \in 1..4}
+    \cup {[name |-> "t120x2-v" \o ToString(v),
+           rounds |-> <<R(120, Nm(v + 4), Nm(v), 60, Nm(v + 1), 29, Nm(v + 2), Nm(v + 5)),
+                        R(113, Nm(v + 3), Nm(v + 6), 40, Nm(v + 7), 39, Nm(v + 4), Nm(v + 1))>>]}
+
+ScensBig0 == ScensBig(0)
+ScensBig1 == ScensBig(1)
+ScensBig2 == ScensBig(2)
+ScensMid0 == ScensMid(0)
+ScensMid1 == ScensMid(1)
+ScensMid2 == ScensMid(2)
+
+(* thorough tier: every free order against four re-allocation orders at three sizes, two rounds each *)
+ScensThorough ==
+    {[name |-> "T" \o ToString(n) \o "-" \o f1 \o "-" \o a,
+      rounds |-> <<R(n, IF f1 \in {"asc", "desc"} THEN "asc" ELSE "s7", f1, n \div 3 + 1, a, (n \div 6) + 1, "zig", "mid"),
+                   R(n - 7, "s11", a, (n - 7) \div 4, f1, (n - 7) \div 8, "s37", "desc")>>]
+     : n \in {96, 300, 530}, f1 \in {"asc", "desc", "zig", "mid", "s7", "s11", "s37", "s101"}, a \in {"asc", "desc", "mid", "s11"}}
 =============================================================================
